@@ -331,9 +331,107 @@ func c03Actions(p *Program, r *Report, g *LALR, nm *NodeModel, E int) {
 				})
 			}
 		}
+		// on every path through the action that builds a node (a branch that reports an error builds none): an action that keeps
+		// an operand in one branch and drops it in the other loses that part of the source for some inputs
+		usesOf := func(nd ast.Node) map[int]bool {
+			saved := used
+			used = map[int]int{}
+			walk(nd, true)
+			out := map[int]bool{}
+			for k := range used {
+				out[k] = true
+			}
+			used = saved
+			return out
+		}
+		reportsError := func(nd ast.Node) bool {
+			found := false
+			ast.Inspect(nd, func(c ast.Node) bool {
+				if call, ok := c.(*ast.CallExpr); ok {
+					if sel, ok := call.Fun.(*ast.SelectorExpr); ok && sel.Sel.Name == "Error" {
+						found = true
+					}
+				}
+				return !found
+			})
+			return found
+		}
+		var must func(stmts []ast.Stmt) (map[int]bool, bool)
+		must = func(stmts []ast.Stmt) (map[int]bool, bool) {
+			set := map[int]bool{}
+			for _, st := range stmts {
+				if ifs, ok := st.(*ast.IfStmt); ok {
+					if ifs.Init != nil {
+						for k := range usesOf(ifs.Init) {
+							set[k] = true
+						}
+					}
+					a, ab1 := must(ifs.Body.List)
+					var b map[int]bool
+					ab2 := false
+					switch e := ifs.Else.(type) {
+					case nil:
+						b = map[int]bool{}
+					case *ast.BlockStmt:
+						b, ab2 = must(e.List)
+					default:
+						b, ab2 = must([]ast.Stmt{e.(ast.Stmt)})
+					}
+					// `if $k != nil { … $k … }`: where the operand is absent there is nothing to keep
+					if be, ok := ifs.Cond.(*ast.BinaryExpr); ok && (be.Op == token.NEQ || be.Op == token.EQL) {
+						for _, side := range [][2]ast.Expr{{be.X, be.Y}, {be.Y, be.X}} {
+							if id, ok := side[1].(*ast.Ident); ok && id.Name == "nil" {
+								for k := range usesOf(&ast.ExprStmt{X: side[0]}) {
+									if a[k] || b[k] {
+										set[k] = true
+									}
+								}
+							}
+						}
+					}
+					switch {
+					case ab1 && ab2:
+						return set, true
+					case ab1:
+						for k := range b {
+							set[k] = true
+						}
+					case ab2:
+						for k := range a {
+							set[k] = true
+						}
+					default:
+						for k := range a {
+							if b[k] {
+								set[k] = true
+							}
+						}
+					}
+					continue
+				}
+				if blk, ok := st.(*ast.BlockStmt); ok {
+					a, ab := must(blk.List)
+					for k := range a {
+						set[k] = true
+					}
+					if ab {
+						return set, true
+					}
+					continue
+				}
+				for k := range usesOf(st) {
+					set[k] = true
+				}
+				if reportsError(st) {
+					return set, true
+				}
+			}
+			return set, false
+		}
 		for _, st := range cc.Body {
 			walk(st, true)
 		}
+		mustSet, aborts := must(cc.Body)
 		n++
 		inst := fmt.Sprintf("rule %s", g.RuleString(rule))
 		site := p.Pos(cc.Pos())
@@ -341,6 +439,8 @@ func c03Actions(p *Program, r *Report, g *LALR, nm *NodeModel, E int) {
 		for _, k := range exprPos {
 			if used[k] == 0 && !(len(cc.Body) == 0 && k == 1) && !defaultCopies(cc, k) {
 				dropped = append(dropped, fmt.Sprintf("$%d", k))
+			} else if used[k] > 0 && !aborts && !mustSet[k] {
+				dropped = append(dropped, fmt.Sprintf("$%d (on one branch of the action)", k))
 			}
 		}
 		r.Check(len(dropped) == 0, "C03.R2", inst+"|operands kept", site, "every expression symbol of the right-hand side becomes part of the node built", "expression symbol(s) "+strings.Join(dropped, ", ")+" of the production are not placed in the tree: that part of the source is lost")
